@@ -10,10 +10,11 @@ from .. import tlc, valuestream as vs
 from ..core import Ctx, Outcome, Violation
 from ..terms import clear_typelib_caches, project
 from ..typeterms import TEXT_POOL, values
+from ..zygote import deep_mutate
 from .c03 import shape
 
 CARRIERS = ["str", "bytes", "bytearray", "mvb", "mvba"]
-EXTRA_TEXTS = ['{"a":', "[1,", "\x00", "éè", "  [1]  ", "0123", "1_000", "...", '"\\ud83d\\ude00"', "[1, 2, 3]",
+EXTRA_TEXTS = ['{"a": [1, {"b": [2]}]}', "(1, [2, 3])", "[[1], [2]]", '{"a":', "[1,", "\x00", "éè", "  [1]  ", "0123", "1_000", "...", '"\\ud83d\\ude00"', "[1, 2, 3]",
                '{"x": 1, "y": "s"}', '["a", "b"]', "{'a': 1}", "('a', 1)", "{1, 2}", "1,2", "a b", "-0", "1.50", "\t\n", "nul",
                "[]", "{}", '""', "''", "0", "-1", "2020-01-01T00:00:00+00:00", "P1D", "a/b",
                "\ufeffabc", "\ufeff12", "\ufeff[1, 2]", "\u200b1", "\xa01", "１２"]
@@ -69,10 +70,16 @@ def collect(ctx: Ctx, profile: str, quick: bool):
             continue
         for c in CARRIERS:
             for fname, fn in (("load", serdes.load), ("strload", serdes.strload)):
-                out, _ = vs.out_of(fn, carry(c, s))
+                out, r = vs.out_of(fn, carry(c, s))
                 events.append({"ev": "load", "text": True, "isjson": f["isjson"], "json": f["json"], "isliteral": f["isliteral"],
                                "astext": project(s), "out": out, "same": True})
                 meta.append({"fn": fname, "carrier": c, "text": s})
+                # the caller modifies the container it was given (at every level): the next call must not notice
+                if isinstance(r, (list, dict, set, tuple)) and deep_mutate(r):
+                    out2, _ = vs.out_of(fn, carry(c, s))
+                    events.append({"ev": "load", "text": True, "isjson": f["isjson"], "json": f["json"], "isliteral": f["isliteral"],
+                                   "astext": project(s), "out": out2, "same": True})
+                    meta.append({"fn": fname + ":after-mutation", "carrier": c, "text": s})
             out, r = vs.out_of(serdes.decode, carry(c, s))
             events.append({"ev": "load", "text": True, "isjson": False, "json": f["json"], "isliteral": False,
                            "astext": project(s), "out": out, "same": True})
@@ -147,6 +154,9 @@ def run(ctx: Ctx) -> Outcome:
     old = tlc.run("MC_Carriers", "MC_Carriers_old.cfg", workers=2)
     if old.ok or "CarrierFree" not in old.stdout:
         raise tlc.MachineryError("Carriers model not sensitive: the memoised-on-the-carrier configuration must violate CarrierFree")
+    shared = tlc.run("MC_Carriers", "MC_Carriers_shared.cfg", workers=2)
+    if shared.ok or "CarrierFree" not in shared.stdout:
+        raise tlc.MachineryError("Carriers model not sensitive: handing out the memo's own containers must violate CarrierFree")
     events, meta, model, ntypes = collect(ctx, profile, ctx.quick)
     tres, rejects = tlc.validate_trace("Carriers_Trace", "Carriers_Trace.cfg", events, timeout=7200)
     viol = _violations(rejects, events, meta)
@@ -157,7 +167,8 @@ def run(ctx: Ctx) -> Outcome:
            "distinct_nontrivial": len(nontrivial), "types": ntypes,
            "load_events": sum(1 for e in events if e["ev"] == "load"), "carrier_events": sum(1 for e in events if e["ev"] == "carrier"),
            "texteq_events": sum(1 for e in events if e["ev"] == "texteq"),
-           "rule": "model: every load() history of length<=3 over 6 texts x 5 carriers with the memo as state; real: load/strload/decode "
+           "rule": "model: every history of length<=3 of load() calls and caller-side mutations of returned containers over 6 texts x 5 "
+                   "carriers with the memo as state; real: load/strload/decode (load/strload again after deep-mutating the returned container) "
                    "over ~80 texts (numeric/boolean/null look-alikes, malformed JSON, control characters, non-ASCII, JSON surrogate "
                    "escapes) x 5 carriers with json/ast facts from the standard library; every type of the TLC universe x (text pool "
                    "sample + JSON and repr renderings of its wire values) x 5 carriers; JSON text vs literal text vs decoded value for "
